@@ -177,6 +177,13 @@ func runStage(prop, tier string, seed int64, st Stage) []childResult {
 				e = append(e, "GORACE=halt_on_error=0 log_path="+racePrefix)
 			}
 			e = append(e, "GOTRACEBACK=all")
+			// children keep their temporary files (dragonboat creates witness snapshot directories
+			// with os.MkdirTemp) in a scratch directory of their own, removed when the child is done
+			childTmp := filepath.Join(buildDir, "tmp", tag)
+			_ = os.RemoveAll(childTmp)
+			_ = os.MkdirAll(childTmp, 0o755)
+			defer os.RemoveAll(childTmp)
+			e = append(e, "TMPDIR="+childTmp)
 			cmd.Env = e
 			lf, err := os.Create(logPath)
 			if err != nil {
